@@ -321,7 +321,22 @@ impl Check for C17 {
         let cap = (c.rc.cfg.capacity.unwrap_or(65536).max(16) as u64).max(tr.rstats.first_buf_offered as u64);
         // what may legitimately be held: the largest in-limit element, the capacity, one header
         let legit = c.legit.min(m);
-        let allowed = 8 * legit.max(cap).max(16) + 4096;
+        // ... and the bookkeeping for the masters that are open at the same time, which no size limit can bound (a
+        // stream may nest masters as deep as it is long): 512 bytes per level of the deepest nesting reached
+        let mut depth = 0u64;
+        let mut max_depth = 0u64;
+        for e in &tr.evs {
+            if let Ev::Tag(t, _) = e {
+                if t.is_start() {
+                    depth += 1;
+                    max_depth = max_depth.max(depth);
+                } else if t.is_end() {
+                    depth = depth.saturating_sub(1);
+                }
+            }
+        }
+        st.max("max_nesting_depth_reached", max_depth);
+        let allowed = 8 * legit.max(cap).max(16) + 4096 + 512 * max_depth;
         st.add("api_calls", tr.api_calls as u64);
         st.add("read_calls", tr.read_calls as u64);
         st.max("max_peak_heap_growth", usage.peak as u64);
@@ -424,7 +439,7 @@ impl Check for C17 {
     }
 
     fn rule(&self) -> &'static str {
-        "One case = specification + a reachable chain of 0-3 masters (known-size with accurate or hostile sizes, unknown-size, mixed) followed by one element (binary, string, numeric, master, or an id outside the specification) whose declared size is drawn from 0, M-1, M, M+1, 2M, powers of two up to 2^56-2, in any size-field width that holds it; payload really present, short or absent, the remainder existing only virtually in a lazy source; limit M from 0 to 1 MiB and the default 4e9; any tolerance subset; drawn capacity and delivery schedule; and, for 1 run in 60, a long stream of 50-600 in-limit Void elements of varying sizes (memory must be bounded by the largest of them, however many there are). One hostile-size case in ten sets the limit late (junk byte in front, first call fails, try_recover(), only then set_max_allowable_tag_size(M), next()): the limit must apply to the tag the recovery stopped at. Measured by a counting global allocator armed around the iteration. Checked: peak heap growth and bytes pulled <= 8*max(largest in-limit declared size, capacity, 16)+4 KiB (+offset); an element above the limit is never emitted and the parse errors (InvalidTagSize at its offset unless an earlier check fires); no panic. Non-trivial: declared size > 0. Distinct: FNV-1a fingerprint."
+        "One case = specification + a reachable chain of 0-3 masters (known-size with accurate or hostile sizes, unknown-size, mixed) followed by one element (binary, string, numeric, master, or an id outside the specification) whose declared size is drawn from 0, M-1, M, M+1, 2M, powers of two up to 2^56-2, in any size-field width that holds it; payload really present, short or absent, the remainder existing only virtually in a lazy source; limit M from 0 to 1 MiB and the default 4e9; any tolerance subset; drawn capacity and delivery schedule; and, for 1 run in 60, a long stream of 50-600 in-limit Void elements of varying sizes (memory must be bounded by the largest of them, however many there are). One hostile-size case in ten sets the limit late (junk byte in front, first call fails, try_recover(), only then set_max_allowable_tag_size(M), next()): the limit must apply to the tag the recovery stopped at. Measured by a counting global allocator armed around the iteration. Checked: peak heap growth and bytes pulled <= 8*max(largest in-limit declared size, capacity, 16)+4 KiB (+offset; + 512 bytes per level of the deepest nesting of open masters reached, which is bookkeeping no size limit bounds); an element above the limit is never emitted and the parse errors (InvalidTagSize at its offset unless an earlier check fires); no panic. Non-trivial: declared size > 0. Distinct: FNV-1a fingerprint."
     }
     fn assumptions(&self) -> Vec<&'static str> {
         vec![
